@@ -14,16 +14,17 @@ for t,mx in types:
             match bcd_fold(b, b.len(), {mx}) {{ Some(v) => Some((v as {t}, b.len() as int)), None => None }}
         }}
         open spec fn progresses() -> bool {{ false }}
-        //@ fn exp:zvt_builder | impl Encoding<{t}> for Bcd | encode | mod=encoding all-loops props=C17,C03
+        //@ fn exp:zvt_builder | impl Encoding<{t}> for Bcd | encode | mod=encoding all-loops props=C17,C03 $M
         //@ loop 0
                 invariant rv@ + bcd_rev(k as nat) =~= bcd_rev(*input as nat),
                 decreases k,
         //@ end
-        //@ fn exp:zvt_builder | impl Encoding<{t}> for Bcd | decode | mod=encoding all-loops n3=d props=C02,C17
+        //@ fn exp:zvt_builder | impl Encoding<{t}> for Bcd | decode | mod=encoding all-loops n3=d props=C02,C17 $M
         //@ loop 0
                 invariant bcd_fold(data@, iter.index@ as nat, {mx}) == Some(rv as nat),
         //@ end
         open spec fn self_delimiting() -> bool {{ false }}
+        open spec fn functional() -> bool {{ true }}
         proof fn law_dec_bounds(b: Seq<u8>) {{}}
         proof fn law_dec_frame(b: Seq<u8>, s: Seq<u8>) {{}}
         //@ tag enc.law_inverse.bcd.{t} C17 C01
